@@ -1151,7 +1151,13 @@ impl<'a, I, A> Strategies<'a, I, A> {
                 for (left_val, right_val) in left.iter().zip(right.iter()) {
                     dist += (left_val - right_val).abs().powf(p);
                 }
-                dist / info.len() as f64
+                // NOTE an infoset contributes at most two (disjoint support), and a player
+                // without infosets can't differ
+                if info.is_empty() {
+                    0.0
+                } else {
+                    dist / 2.0 / info.len() as f64
+                }
             })
             .collect();
         dists.try_into().unwrap()
